@@ -28,17 +28,25 @@ Check(o, ev) ==
   LET n   == o.n
       nn  == FromNat(n)
       ma  == MaxAbs(o)
+      rng == SSub(o.mx, o.mn).m
       mean == [n |-> o.S, d |-> nn]
       msq  == [n |-> o.Q, d |-> nn]
       var  == [n |-> SSub(SMul(SNat(nn), o.Q), SMul(o.S, o.S)), d |-> Mul(nn, FromNat(n-1))]
   IN
+  \* tolerances follow the error bounds of Welford's update and Chan's merge for at most 2^9 values:
+  \*   mean      n eps max|x|                       ->  2^-42 (|mean| + max|x|)
+  \*   variance  n eps (variance + max|x| * range)  ->  2^-36 variance + 2^-42 max|x| (max - min)
+  \* (a slack proportional to max|x|^2 would hide every error at a large common offset)
   /\ ev.n = n
   /\ n > 0 => /\ ev.ok = 1
-              /\ Sg(ev.tot) = o.S /\ Sg(ev.mn) = o.mn /\ Sg(ev.mx) = o.mx
-              /\ ev.mean.c = "fin" /\ DyClose(ev.mean.d, mean, NatRat(ma), 33)
+              /\ Sg(ev.mn) = o.mn /\ Sg(ev.mx) = o.mx
+              \* Total is a float64 sum: exact while the integer sum is below 2^53, rounded (once per operation) beyond
+              /\ IF Cmp(o.S.m, Pow2(53)) < 0 THEN Sg(ev.tot) = o.S
+                 ELSE RClose([n |-> Sg(ev.tot), d |-> <<1>>], [n |-> o.S, d |-> <<1>>], NatRat(<<>>), 42)
+              /\ ev.mean.c = "fin" /\ DyClose(ev.mean.d, mean, NatRat(ma), 42)
               /\ ev.rms.c = "fin" /\ DyClose(DySq(ev.rms.d), msq, NatRat(<<>>), 30)
-  /\ n > 1 => /\ ev.var.c = "fin" /\ DyClose(ev.var.d, var, NatRat(Mul(ma, ma)), 33)
-              /\ ev.sd.c = "fin" /\ DyClose(DySq(ev.sd.d), var, NatRat(Mul(ma, ma)), 31)
+  /\ n > 1 => /\ ev.var.c = "fin" /\ DyClose(ev.var.d, var, [n |-> SNat(Mul(ma, rng)), d |-> <<64>>], 36)
+              /\ ev.sd.c = "fin" /\ DyClose(DySq(ev.sd.d), var, [n |-> SNat(Mul(ma, rng)), d |-> <<64>>], 34)
 
 Ev == l <= Len(Trace) /\ l' = l + 1
 SMin(x, y) == IF SCmp(x, y) <= 0 THEN x ELSE y
@@ -59,8 +67,10 @@ Comb == /\ Ev /\ Trace[l].op = "Combine"
               /\ st' = [st EXCEPT ![a] = o2]
               /\ Trace[l].barg = 1            \* the argument accumulator is left alone
               /\ Check(o2, Trace[l])
+\* the driver replaces an accumulator by a fresh one (zero value)
+Clear == /\ Ev /\ Trace[l].op = "Clear" /\ st' = [st EXCEPT ![Trace[l].a] = Zero]
 Reset == /\ Ev /\ Trace[l].op = "Reset" /\ st' = [a \in Acc |-> Zero]
-Next == AddA \/ Comb \/ Reset
+Next == AddA \/ Comb \/ Clear \/ Reset
 Spec == Init /\ [][Next]_vars
 Accepted == TLCGet("stats").diameter - 1 = Len(Trace)
 =============================================================================
